@@ -38,6 +38,7 @@ pub fn check_iou_permissions() -> super::IoUringPermission {
 struct PendingIo {
     command: IoCommand,
     completion_sender: Sender<CompleteIo>,
+    short_completions: u32,
 }
 
 pub fn start_io_worker(
@@ -93,6 +94,7 @@ fn run_worker(page_pool: PagePool, command_rx: Receiver<IoPacket>) {
                 let PendingIo {
                     command,
                     completion_sender,
+                    short_completions,
                 } = pending.remove(completion_event.user_data() as usize);
 
                 // io_uring never uses errno to pass back error information.
@@ -117,10 +119,17 @@ fn run_worker(page_pool: PagePool, command_rx: Receiver<IoPacket>) {
                 let result = match kind_result {
                     IoKindResult::Ok => Ok(()),
                     IoKindResult::Err => Err(std::io::Error::from_raw_os_error(io_uring_res.abs())),
+                    IoKindResult::Retry
+                        if io_uring_res >= 0
+                            && short_completions >= super::MAX_SHORT_COMPLETIONS =>
+                    {
+                        Err(super::short_completion_error())
+                    }
                     IoKindResult::Retry => {
                         retries.push_back(IoPacket {
                             command,
                             completion_sender,
+                            short_completions: short_completions + (io_uring_res >= 0) as u32,
                         });
                         continue;
                     }
@@ -177,6 +186,7 @@ fn run_worker(page_pool: PagePool, command_rx: Receiver<IoPacket>) {
             let pending_index = pending.insert(PendingIo {
                 command: next_io.command,
                 completion_sender: next_io.completion_sender,
+                short_completions: next_io.short_completions,
             });
 
             let entry = submission_entry(&mut pending.get_mut(pending_index).unwrap().command)
